@@ -174,6 +174,7 @@ type Exec struct {
 	rangeIdx    []*Term
 	visStack    []*Term // per enclosing map-range loop: the ghost set of keys already produced
 	epochMerges map[int]*epochMerge
+	iterStart   []*State // per enclosing for loop: the state at the start of the current iteration
 	dynLocs     []modLoc // places assumed unchanged by calls through function values (dyncall-preserves)
 	stableMaps  []stableMap // maps ranged over by enclosing loops that reason with visited(): they must not be written
 	framed      map[*Term]bool
